@@ -73,6 +73,6 @@ func TestVerifC05Child(t *testing.T) {
 func TestVerifC05(t *testing.T) {
 	rec := ev.New("C05", "current-format")
 	defer rec.Flush()
-	cases := c05kit.Cases(ev.Seed(), ev.Thorough(), 0)
+	cases := c05kit.Cases(ev.Seed(), ev.Thorough(), ev.Pick(6, 60))
 	c05kit.Drive(rec, c05Format(), cases, "TestVerifC05Child", 4)
 }
